@@ -27,6 +27,11 @@ CHECKS = {
   text="Model checking: every assertion kind x operand kinds x boundary-straddling values x widths is captured with error checks off and paired with the run-time verdict of the same call; TLC computes the reference relation, searches all completions (unsatisfiable when false, honest witness satisfies when true and accepted, acceptance == relation). A free-operand variant makes the operand wires adversarial too, so one instance covers every operand value of the field.",
   note="Small prime fields (13, 37, 67, 257); relation on residues for the free-operand variant; per-assertion.",
   design="5/C03"),
+ "C05": dict(
+  technique="TLC trace validation (TraceRef.tla, Inv_Ref / Inv_NoSpuriousRaise) against a TLA+ reference of Python integer semantics (PyRef.tla)",
+  text="Model checking by trace validation: every operator, reflected operator, unary op, check and selection on secret integers/booleans x three operand-kind combinations x the full value window -2^b-1..2^b+1 x bitlengths 2..6 (plus random expression programs, every node judged) is executed on the real code; TLC evaluates the reference value with PyRef and compares, and checks that calls inside the formalised documented domain do not raise.",
+  note="Integer shadow values compared exactly; calls whose reference value does not fit TLC's 32-bit integers are skipped (counted). Known findings characterised in KnownDeviations.tla.",
+  design="5/C05"),
 }
 
 NOT_YET = "check not built yet in this round (planned, see DESIGN.md section 5)"
